@@ -167,30 +167,13 @@ impl Command {
         let mut tokens_new = tokens.clone();
         let mut redirects_from_type = String::new();
         let mut redirects_from_value = String::new();
-        let mut has_redirect_from = tokens_new.iter().any(|x| x.0.is_empty() && (x.1 == "<" || x.1 == "<<<"));
-
-        let mut len = tokens_new.len();
-        while has_redirect_from {
-            if let Some(idx) = tokens_new.iter().position(|x| x.0.is_empty() && x.1 == "<") {
-                redirects_from_type = "<".to_string();
-                tokens_new.remove(idx);
-                len -= 1;
-                if len > idx {
-                    redirects_from_value = tokens_new.remove(idx).1;
-                    len -= 1;
-                }
+        // input redirections are applied left to right: the last one on
+        // the line is the command's stdin, whichever of `<` / `<<<` it is
+        while let Some(idx) = tokens_new.iter().position(|x| x.0.is_empty() && (x.1 == "<" || x.1 == "<<<")) {
+            redirects_from_type = tokens_new.remove(idx).1;
+            if idx < tokens_new.len() {
+                redirects_from_value = tokens_new.remove(idx).1;
             }
-            if let Some(idx) = tokens_new.iter().position(|x| x.0.is_empty() && x.1 == "<<<") {
-                redirects_from_type = "<<<".to_string();
-                tokens_new.remove(idx);
-                len -= 1;
-                if len > idx {
-                    redirects_from_value = tokens_new.remove(idx).1;
-                    len -= 1;
-                }
-            }
-
-            has_redirect_from = tokens_new.iter().any(|x| x.0.is_empty() && (x.1 == "<" || x.1 == "<<<"));
         }
 
         let tokens_final;
